@@ -6,6 +6,7 @@ From Jade Require Import Base Cluster.
 Import ListNotations.
 Open Scope N_scope.
 
+
 (* ---------- boolean equalities ---------- *)
 Lemma cfg_eqb_eq a b : cfg_eqb a b = true -> a = b.
 Proof.
@@ -209,6 +210,63 @@ Proof.
     + symmetry. apply Hs. exact Hv.
 Qed.
 
+(* mutate both copies in memory, compare both versions, then write both (update_job_status,
+   prepare_for_resubmission) *)
+Definition write_both (d : disk) (h1 : handle) :=
+  and_then (chk_cfg d h1) (fun d h => and_then (chk_js d h) (fun d h => and_then (ser_cfg d h) ser_js)).
+
+Lemma write_both_post d h j j1 c1 r d' h' : consistent d -> hinv d h -> h_js h = Some j ->
+  j_version j1 = j_version j -> c_version c1 = c_version (h_cfg h) -> c_submitter c1 = c_submitter (h_cfg h) ->
+  write_both d (h_with_cfg (h_with_js h (Some j1)) c1) = (r, d', h') ->
+  consistent d' /\ dstep_ok d d' /\ hinv d' h' /\ h_host h' = h_host h /\
+  (cfg_same d d' \/ (c_version (h_cfg h) = d_cfg_vf d /\ d_cfg d' = h_cfg h')) /\
+  (js_same d d' \/ (exists j, h_js h = Some j /\ j_version j = d_js_vf d /\ h_js h' = Some (d_js d'))) /\
+  c_submitter (d_cfg d') = c_submitter (d_cfg d) /\ h_promoted h' = h_promoted h /\
+  (is_exn r = true -> d' = d) /\
+  (r = ROk \/ (r = RCfgMismatch /\ c_version (h_cfg h) <> d_cfg_vf d) \/ (r = RJsMismatch /\ j_version j <> d_js_vf d)).
+Proof.
+  intros Hc Hi Ej Ejv Ecv Ecs H. unfold write_both in H.
+  assert (Hj1 : j_version j1 <= d_js_vf d) by (rewrite Ejv; destruct Hi as [[_ [_ X]] _]; apply X; exact Ej).
+  assert (Hi0 : hinv d (h_with_js h (Some j1))) by (apply hinv_js_mut; auto).
+  assert (Hi1 : hinv d (h_with_cfg (h_with_js h (Some j1)) c1)) by (apply hinv_cfg_mut; auto).
+  assert (Nop : forall rr, is_exn rr = true -> rr = RCfgMismatch \/ rr = RJsMismatch ->
+                (rr = RCfgMismatch -> c_version (h_cfg h) <> d_cfg_vf d) -> (rr = RJsMismatch -> j_version j <> d_js_vf d) ->
+                (rr, d, h_with_cfg (h_with_js h (Some j1)) c1) = (r, d', h') ->
+                consistent d' /\ dstep_ok d d' /\ hinv d' h' /\ h_host h' = h_host h /\
+                (cfg_same d d' \/ (c_version (h_cfg h) = d_cfg_vf d /\ d_cfg d' = h_cfg h')) /\
+                (js_same d d' \/ (exists j, h_js h = Some j /\ j_version j = d_js_vf d /\ h_js h' = Some (d_js d'))) /\
+                c_submitter (d_cfg d') = c_submitter (d_cfg d) /\ h_promoted h' = h_promoted h /\
+                (is_exn r = true -> d' = d) /\
+                (r = ROk \/ (r = RCfgMismatch /\ c_version (h_cfg h) <> d_cfg_vf d) \/ (r = RJsMismatch /\ j_version j <> d_js_vf d))).
+  { intros rr Hex Hrr N1 N2 X. injection X as <- <- <-. splits; auto.
+    destruct Hrr as [->| ->]; [right; left; auto|right; right; auto]. }
+  unfold and_then at 1 in H. unfold chk_cfg in H. simpl in H. rewrite Ecv in H.
+  destruct (c_version (h_cfg h) =? d_cfg_vf d) eqn:Ev; simpl in H.
+  2:{ apply N.eqb_neq in Ev. apply (Nop RCfgMismatch); auto; discriminate. }
+  unfold and_then at 1 in H. unfold chk_js in H. simpl in H. rewrite Ejv in H.
+  destruct (j_version j =? d_js_vf d) eqn:Evj; simpl in H.
+  2:{ apply N.eqb_neq in Evj. apply (Nop RJsMismatch); auto; discriminate. }
+  apply N.eqb_eq in Ev, Evj.
+  destruct (ser_cfg d (h_with_cfg (h_with_js h (Some j1)) c1)) as [[r1 d1] h1] eqn:E1.
+  apply mut_ser_cfg in E1; auto.
+  destruct E1 as [A [B [C [D [E [F [G [I [J [K L]]]]]]]]]]. simpl in *.
+  destruct L as [[-> _] | [_ X]]; [|contradiction].
+  unfold and_then in H.
+  destruct (ser_js_spec _ _ _ _ _ A C H) as [[-> [-> X]] | [-> [[j2 [Ej2 Ev2]] [Hc' [Hi' [Hcfg [Hjs [Hj' [Hcf [Hh [Hp Hq]]]]]]]]]]].
+  + exfalso. rewrite J in X. destruct X as [[_ X]|[_ [j2 [X Y]]]]; [discriminate|].
+    inversion X; subst j2. apply Y. destruct F as [_ F]. rewrite F. congruence.
+  + splits; auto.
+    all: try solve [destruct Hcfg as [Q1 Q2]; destruct F as [F1 F2]; destruct B as [B _]; destruct Hjs as [S1 S2]; split;
+                    [destruct B as [[B1 B2]|[B1 B2]]; [left; split; congruence|right; split; congruence] | right; split; congruence]].
+    all: try solve [congruence].
+    all: try solve [destruct Hcfg as [Q1 Q2]; destruct E as [[E1 E2]|[E1 E2]]; [left; split; congruence|right; split; congruence]].
+    all: try solve [right; exists j; splits; auto].
+    all: try solve [simpl; destruct Hcfg as [Q1 Q2]; rewrite Q1; exact G].
+    all: try solve [simpl; congruence].
+    all: try solve [intro; discriminate].
+Qed.
+
+
 Lemma act_post o d h r d' h' : consistent d -> hinv d h -> act o d h = (r, d', h') -> apost o d h r d' h'.
 Proof.
   intros Hc Hi H. destruct o; simpl in H.
@@ -263,36 +321,10 @@ Proof.
   - (* HUpdate *)
     destruct (h_js h) as [j|] eqn:Ej.
     2:{ injection H as <- <- <-. apply apost_nop; auto; intros [X _]; discriminate. }
-    set (j1 := mkJs (j_version j) b ids) in *.
-    set (c1 := cfg_with_submitted (h_cfg h) (c_submitted (h_cfg h) + k)) in *.
-    assert (Hj1 : j_version j <= d_js_vf d) by (destruct Hi as [[_ [_ X]] _]; apply X; exact Ej).
-    assert (Hi0 : hinv d (h_with_js h (Some j1))) by (apply hinv_js_mut; auto).
-    assert (Hi1 : hinv d (h_with_cfg (h_with_js h (Some j1)) c1)) by (apply hinv_cfg_mut; auto).
-    change (mkH (h_host h) c1 (h_hash h) (Some j1) (h_promoted h)) with (h_with_cfg (h_with_js h (Some j1)) c1) in H.
-    unfold and_then at 1 in H. unfold chk_cfg in H. simpl in H.
-    destruct (c_version (h_cfg h) =? d_cfg_vf d) eqn:Ev; simpl in H.
-    2:{ injection H as <- <- <-. apply apost_nop; auto; intros [X _]; discriminate. }
-    unfold and_then at 1 in H. unfold chk_js in H. simpl in H.
-    destruct (j_version j =? d_js_vf d) eqn:Evj; simpl in H.
-    2:{ injection H as <- <- <-. apply apost_nop; auto; intros [X _]; discriminate. }
-    apply N.eqb_eq in Ev, Evj.
-    destruct (ser_cfg d (h_with_cfg (h_with_js h (Some j1)) c1)) as [[r1 d1] h1] eqn:E1.
-    apply mut_ser_cfg in E1; auto.
-    destruct E1 as [A [B [C [D [E [F [G [I [J [K L]]]]]]]]]]. simpl in *.
-    destruct L as [[-> _] | [_ X]]; [|contradiction].
-    unfold and_then in H.
-    destruct (ser_js_spec _ _ _ _ _ A C H) as [[-> [-> X]] | [-> [[j2 [Ej2 Ev2]] [Hc' [Hi' [Hcfg [Hjs [Hj' [Hcf [Hh [Hp Hq]]]]]]]]]]].
-    + exfalso. rewrite J in X. destruct X as [[_ X]|[_ [j2 [X Y]]]]; [discriminate|].
-      inversion X; subst j2. apply Y. simpl. destruct F as [_ F]. rewrite F. exact Evj.
-    + unfold apost. splits; auto.
-    all: try solve [destruct Hcfg as [Q1 Q2]; destruct F as [F1 F2]; destruct B as [B _]; destruct Hjs as [S1 S2]; split;
-                    [destruct B as [[B1 B2]|[B1 B2]]; [left; split; congruence|right; split; congruence] | right; split; congruence]].
-    all: try solve [congruence].
-    all: try solve [destruct Hcfg as [Q1 Q2]; destruct E as [[E1 E2]|[E1 E2]]; [left; split; congruence|right; split; congruence]].
-    all: try solve [right; exists j; splits; auto].
-    all: try solve [simpl; destruct Hcfg as [Q1 Q2]; rewrite Q1; exact G].
-    all: try solve [simpl; congruence].
-    all: try solve [intro; discriminate].
+    change (write_both d (h_with_cfg (h_with_js h (Some (mkJs (j_version j) b ids)))
+                                     (cfg_with_submitted (h_cfg h) (c_submitted (h_cfg h) + k))) = (r, d', h')) in H.
+    apply (write_both_post _ _ j) in H; auto.
+    destruct H as [A [B [C [D [E [F [G [I [J _]]]]]]]]]. unfold apost. splits; auto.
   - (* HCompleteHpc *)
     destruct (h_js h) as [j|] eqn:Ej.
     2:{ injection H as <- <- <-. apply apost_nop; auto; intros [X _]; discriminate. }
@@ -311,27 +343,17 @@ Proof.
   - (* HReloadJobs *)
     injection H as <- <- <-. apply apost_nop; auto; try (intros [X _]; discriminate).
     apply hinv_js_mut; auto. destruct Hc as [_ X]. rewrite X. apply N.le_refl.
-  - (* HPrepMutate *)
+  - (* HPrepare *)
     destruct (c_complete (h_cfg h)).
-    + destruct (h_js h); injection H as <- <- <-; (apply apost_nop; auto; try (intros [X _]; discriminate));
-        apply hinv_cfg_mut; auto.
-    + injection H as <- <- <-. apply apost_nop; auto; intros [X _]; discriminate.
-  - (* HCheckCfgNL *)
-    unfold chk_cfg in H. destruct (negb _); injection H as <- <- <-; apply apost_nop; auto; intros [X _]; discriminate.
-  - (* HCheckJsNL *)
-    unfold chk_js in H. destruct (h_js h); [destruct (negb _)|]; injection H as <- <- <-; apply apost_nop; auto; intros [X _]; discriminate.
-  - (* HSerializeNL *)
-    rewrite <- (h_with_cfg_id h) in H at 1. apply mut_ser_cfg in H; auto.
-    destruct H as [A [B [C [D [E [F [G [I [J [K L]]]]]]]]]]. unfold apost. splits; auto; try solve [left; exact F]; try solve [simpl; congruence].
-  - (* HSerializeJobsNL *)
-    destruct (ser_js_spec _ _ _ _ _ Hc Hi H) as [[-> [-> X]] | [-> [[j [Ej Ev]] [Hc' [Hi' [Hcfg [Hjs [Hj' [Hcf [Hh [Hp Hq]]]]]]]]]]].
-    + apply apost_nop; auto; intros [Y _]; discriminate.
-    + unfold apost. splits; simpl; auto.
-    all: try solve [split; [left; exact Hcfg | right; exact Hjs]].
-    all: try solve [left; exact Hcfg].
-    all: try solve [right; exists j; auto].
-    all: try solve [destruct Hcfg as [Q _]; rewrite Q; reflexivity].
-    all: try solve [intro; discriminate].
+    2:{ injection H as <- <- <-. apply apost_nop; auto; intros [X _]; discriminate. }
+    destruct (h_js h) as [j|] eqn:Ej.
+    2:{ injection H as <- <- <-. apply apost_nop; auto; try (intros [X _]; discriminate); try (apply hinv_cfg_mut; auto). }
+    assert (Hw : h_with_js h (Some j) = h) by (destruct h; simpl in *; subst; reflexivity).
+    rewrite <- Hw in H at 1.
+    change (write_both d (h_with_cfg (h_with_js h (Some j))
+              (cfg_with_submitted (cfg_with_canceled (cfg_with_complete (h_cfg h) false) false) v)) = (r, d', h')) in H.
+    apply (write_both_post _ _ j) in H; auto.
+    destruct H as [A [B [C [D [E [F [G [I [J _]]]]]]]]]. unfold apost. splits; auto.
 Qed.
 
 (* ---------- lists of handles ---------- *)
@@ -577,11 +599,11 @@ Qed.
 (* ---------- stale copies are rejected, all four files unchanged ---------- *)
 Definition writes_cfg (o : hop) : bool :=
   match o with
-  | HPromote | HDemote | HMarkComplete | HMarkCanceled | HSerialize | HSerializeNL | HUpdate _ _ _ => true
+  | HPromote | HDemote | HMarkComplete | HMarkCanceled | HSerialize | HUpdate _ _ _ | HPrepare _ => true
   | _ => false
   end.
 Definition writes_js (o : hop) : bool :=
-  match o with HSerializeJobs | HSerializeJobsNL | HUpdate _ _ _ | HCompleteHpc _ => true | _ => false end.
+  match o with HSerializeJobs | HUpdate _ _ _ | HCompleteHpc _ | HPrepare _ => true | _ => false end.
 Definition cfg_stale (d : disk) (h : handle) : Prop := c_version (h_cfg h) <> d_cfg_vf d.
 Definition js_stale (d : disk) (h : handle) : Prop := exists j, h_js h = Some j /\ j_version j <> d_js_vf d.
 (* the operation did not take effect: an exception, a lock timeout, or "not promoted" *)
@@ -598,6 +620,7 @@ Definition precond (o : hop) (h : handle) : bool :=
                        | Some j => match remove_first id (j_ids j) with Some _ => true | None => false end
                        | None => false
                        end
+  | HPrepare _ => c_complete (h_cfg h) && match h_js h with Some _ => true | None => false end
   | _ => true
   end.
 
@@ -614,7 +637,8 @@ Proof.
   - rewrite Hs; simpl. auto.
   - rewrite Hs; simpl. auto.
   - destruct (h_js h); simpl; [|repeat split; auto; discriminate]. rewrite Hs; simpl. auto.
-  - rewrite Hs; simpl. auto.
+  - destruct (c_complete (h_cfg h)); simpl; [|repeat split; auto; discriminate].
+    destruct (h_js h); simpl; [|repeat split; auto; discriminate]. rewrite Hs; simpl. auto.
 Qed.
 
 Lemma act_stale_js o d h : writes_js o = true -> js_stale d h ->
@@ -627,7 +651,8 @@ Proof.
   - rewrite Hs; simpl. auto.
   - destruct (c_version (h_cfg h) =? d_cfg_vf d); simpl; [rewrite Hs; simpl|]; auto.
   - destruct (remove_first id (j_ids j)); simpl; [rewrite Hs; simpl; auto|repeat split; auto; discriminate].
-  - rewrite Hs; simpl. auto.
+  - destruct (c_complete (h_cfg h)); simpl; [|repeat split; auto; discriminate].
+    destruct (c_version (h_cfg h) =? d_cfg_vf d); simpl; rewrite ?Ej; simpl; [rewrite Hs; simpl|]; auto.
 Qed.
 
 Lemma step_do_eq s i o h : nth_error (s_handles s) i = Some h ->
@@ -651,45 +676,6 @@ Proof.
     destruct X as [A [B C]]. simpl. auto.
   - pose proof (act_stale_js o _ _ Hw Hs) as X. destruct (act o (s_disk s) h) as [[r d'] h'].
     destruct X as [A [B C]]. simpl. auto.
-Qed.
-
-Lemma step_nl s i o h : nth_error (s_handles s) i = Some h -> locked o = false ->
-  step s (Do i o) = (fst (fst (act o (s_disk s) h)),
-                     mkS (snd (fst (act o (s_disk s) h))) (s_wedged s) (upd (s_handles s) i (snd (act o (s_disk s) h)))).
-Proof.
-  intros Hn Hl. rewrite (step_do_eq _ _ _ _ Hn), Hl. simpl.
-  destruct (act o (s_disk s) h) as [[r d'] h']. simpl. rewrite orb_false_r. reflexivity.
-Qed.
-
-(* prepare_for_resubmission as one call: a stale copy of either object => nothing is written *)
-Theorem prepare_stale_rejected : forall s i h v,
-  nth_error (s_handles s) i = Some h ->
-  cfg_stale (s_disk s) h \/ js_stale (s_disk s) h ->
-  let '(r, s') := prepare_resub s i v in
-  s_disk s' = s_disk s /\ is_exn r = true /\
-  (c_complete (h_cfg h) = true -> r = RCfgMismatch \/ r = RJsMismatch \/ (r = RAssertion /\ h_js h = None)).
-Proof.
-  intros s i h v Hn Hst. unfold prepare_resub.
-  rewrite (step_nl _ _ (HPrepMutate v) _ Hn eq_refl).
-  cbn [act].
-  destruct (c_complete (h_cfg h)) eqn:Ec; [|cbn; repeat split; auto; discriminate].
-  destruct (h_js h) as [j|] eqn:Ej; cbn [fst snd result_eqb negb].
-  2:{ cbn. repeat split; auto. }
-  set (h1 := h_with_cfg h (cfg_with_submitted (cfg_with_canceled (cfg_with_complete (h_cfg h) false) false) v)).
-  set (s1 := mkS (s_disk s) (s_wedged s) (upd (s_handles s) i h1)).
-  assert (Hn1 : nth_error (s_handles s1) i = Some h1) by (eapply nth_error_upd_eq; eauto).
-  rewrite (step_nl s1 _ HCheckCfgNL _ Hn1 eq_refl). cbn [act s_disk s1]. unfold chk_cfg. cbn [h1 h_with_cfg h_cfg cfg_with_submitted cfg_with_complete cfg_with_canceled c_version].
-  destruct (c_version (h_cfg h) =? d_cfg_vf (s_disk s)) eqn:Ev; cbn [negb fst snd result_eqb].
-  2:{ cbn. repeat split; auto. }
-  match goal with |- context [step ?s2 (Do i HCheckJsNL)] =>
-    assert (Hn2 : nth_error (s_handles s2) i = Some h1) by (eapply nth_error_upd_eq; eauto);
-    rewrite (step_nl s2 _ HCheckJsNL _ Hn2 eq_refl) end.
-  cbn [act s_disk s1]. unfold chk_js. cbn [h1 h_with_cfg h_js]. rewrite Ej.
-  destruct (j_version j =? d_js_vf (s_disk s)) eqn:Evj; cbn [negb fst snd result_eqb].
-  2:{ cbn. repeat split; auto. }
-  exfalso. apply N.eqb_eq in Ev, Evj. destruct Hst as [X|[j' [X Y]]].
-  - apply X; exact Ev.
-  - rewrite Ej in X. inversion X; subst. apply Y; exact Evj.
 Qed.
 
 (* ---------- no lost update ---------- *)
@@ -1043,11 +1029,13 @@ Proof.
     simpl in *. unfold and_then. destruct r; simpl; try congruence; try apply J.
   - destruct (h_js h); simpl; [|discriminate]. destruct (remove_first id (j_ids j)); simpl; [apply J|discriminate].
   - discriminate.
-  - destruct (c_complete (h_cfg h)); [destruct (h_js h)|]; simpl; discriminate.
-  - unfold chk_cfg. destruct (negb _); simpl; discriminate.
-  - unfold chk_js. destruct (h_js h); [destruct (negb _)|]; simpl; discriminate.
-  - apply S.
-  - apply J.
+  - destruct (c_complete (h_cfg h)); simpl; [|discriminate]. destruct (h_js h); simpl; [|discriminate].
+    unfold and_then at 1. unfold chk_cfg. simpl.
+    destruct (negb _); simpl; [discriminate|]. unfold and_then at 1. unfold chk_js. simpl.
+    destruct (h_js _); simpl; [|discriminate].
+    destruct (negb _); simpl; [discriminate|].
+    match goal with |- context [ser_cfg ?a ?b] => specialize (S a b); destruct (ser_cfg a b) as [[r d'] h'] end.
+    simpl in *. unfold and_then. destruct r; simpl; try congruence; try apply J.
 Qed.
 
 Lemma act_not_blocked o d h : fst (fst (act o d h)) <> RBlocked.
@@ -1076,11 +1064,13 @@ Proof.
     simpl in *. unfold and_then. destruct r; simpl; try congruence; try apply J.
   - destruct (h_js h); simpl; [|discriminate]. destruct (remove_first id (j_ids j)); simpl; [apply J|discriminate].
   - discriminate.
-  - destruct (c_complete (h_cfg h)); [destruct (h_js h)|]; simpl; discriminate.
-  - unfold chk_cfg. destruct (negb _); simpl; discriminate.
-  - unfold chk_js. destruct (h_js h); [destruct (negb _)|]; simpl; discriminate.
-  - apply S.
-  - apply J.
+  - destruct (c_complete (h_cfg h)); simpl; [|discriminate]. destruct (h_js h); simpl; [|discriminate].
+    unfold and_then at 1. unfold chk_cfg. simpl.
+    destruct (negb _); simpl; [discriminate|]. unfold and_then at 1. unfold chk_js. simpl.
+    destruct (h_js _); simpl; [|discriminate].
+    destruct (negb _); simpl; [discriminate|].
+    match goal with |- context [ser_cfg ?a ?b] => specialize (S a b); destruct (ser_cfg a b) as [[r d'] h'] end.
+    simpl in *. unfold and_then. destruct r; simpl; try congruence; try apply J.
 Qed.
 
 Lemma bit_step s o : sinv s ->
